@@ -1,6 +1,6 @@
 (* Properties of the reference semantics and of the device-command layer. *)
 From Coq Require Import ZArith String List Bool PrimFloat Lia.
-From Bardolph Require Import Base.PyFloat Gen.Codes Time.TimeSpec Time.TimePattern
+From Bardolph Require Import Base.PyFloat Gen.Codes Time.TimeSpec Time.TimeCore
   Lang.Value Lang.Units0 Lang.World Lang.Regs Lang.Devices Lang.Builtins Lang.Syntax Lang.Sem.
 Open Scope string_scope.
 Open Scope list_scope.
